@@ -88,7 +88,7 @@ structure St where
   spc : SPc
   hist : List Stanza        -- every stanza the serve loop has read, in order
   hlog : List Nat           -- numbers of the stanzas given to the handler (latest first)
-  dropped : List Nat        -- responses discarded because the waiter's context was done
+  dropped : List Nat        -- responses discarded because the waiter's context was done (always empty since the round E fix)
   broken : Bool := false    -- a transmission stopped inside an element: every later write fails (`errOutputBroken`)
   outClosed : Bool := false -- the output stream was closed (`Close`): every later write fails (`ErrOutputStreamClosed`)
 
@@ -196,7 +196,10 @@ def step (cfg : Cfg) (s : St) : Act → Option St
     | .offering j k =>
       if ctxDone cfg s j then
         let isBad := match s.hist[k]? with | some st => st.bad | none => false
-        some { s with spc := if isBad then .dead else .idle, dropped := k :: s.dropped,
+        -- round E (repo fix "a response whose caller stopped waiting … is passed to the handler"):
+        -- nobody waits for it any more, so the handler gets it like every unmatched response
+        -- (`dropped` is kept in the state; nothing is ever put into it any more)
+        some { s with spc := if isBad then .dead else .idle, hlog := k :: s.hlog,
                       outClosed := s.outClosed || isBad }
       else none
     | _ => none
